@@ -107,3 +107,42 @@ def rule_attribute_coverage(ck, repo, R):
             'SetChiralTag': '<sign>'}
     ck.decide(exp == want, R, 'export:values', exp, f'export sets {exp}', file=tf.file, line=tf.lineno)
     ck.decide('atom.xy = (x, y)' in src(ff.node) and 'conf.SetAtomPosition(mapping[n], (a.x, a.y, 0))' in src(tf.node), R, 'coordinates', None, '2D coordinates are no longer transferred both ways', file=ff.file, line=ff.lineno)
+
+
+def rule_import_revalidates(ck, repo, R):
+    ck.rule(R, 'from_rdkit_molecule copies RDKit stereo tags onto atoms / bonds as raw `_stereo` writes; fix_stereo() must run whenever ANY such write may have '
+               'happened: it is unconditional or guarded by a disjunction that is true as soon as one of the label collections is non-empty '
+               '(RDKit keeps stale tags after edits, and labels of one kind need the clean-up as much as mixed ones)')
+    from .r_query import dnf, simplify
+    f = repo.func(f'{RD}:from_rdkit_molecule')
+    ck.require(f is not None, 'from_rdkit_molecule not found')
+    witnesses = []
+    for l in ast.walk(f.node):
+        if isinstance(l, ast.For) and isinstance(l.iter, ast.Name) and any(isinstance(a, ast.Assign) and isinstance(a.targets[0], ast.Attribute) and a.targets[0].attr == '_stereo'
+                                                                             for a in ast.walk(l)):
+            witnesses.append(l.iter.id)
+    ck.require(len(witnesses) >= 2, 'from_rdkit_molecule: loops writing _stereo from collected label lists not found')
+    calls = [c for c in ast.walk(f.node) if isinstance(c, ast.Call) and isinstance(c.func, ast.Attribute) and c.func.attr == 'fix_stereo']
+    ck.require(len(calls) == 1, 'from_rdkit_molecule: fix_stereo() call not found')
+    parents = {}
+    for p_ in ast.walk(f.node):
+        for ch in ast.iter_child_nodes(p_):
+            parents[ch] = p_
+    guards = []
+    p_ = parents.get(calls[0])
+    while p_ is not None and p_ is not f.node:
+        if isinstance(p_, ast.If):
+            guards.append(p_.test)
+        p_ = parents.get(p_)
+    last_write = max(a.lineno for l in ast.walk(f.node) if isinstance(l, ast.For) for a in ast.walk(l)
+                     if isinstance(a, ast.Assign) and isinstance(a.targets[0], ast.Attribute) and a.targets[0].attr == '_stereo')
+    ck.decide(calls[0].lineno > last_write, R, 'after-writes', None, 'fix_stereo() runs before the last raw stereo write', file=f.file, line=calls[0].lineno)
+    for w in witnesses:
+        ok = True
+        for g in guards:
+            cl = simplify(dnf(g))
+            ok = ok and any(c == frozenset([(('truthy', w), True)]) for c in cl)
+        ck.decide(ok, R, f'covers:{w}', [src(g) for g in guards] or 'unconditional',
+                  f'fix_stereo() in from_rdkit_molecule is guarded by `{" and ".join(src(g) for g in guards)}`, which is not implied by `{w}` being non-empty: labels copied '
+                  f'from that collection alone are never re-validated', file=f.file, line=calls[0].lineno, func=f.qualname, construct=src(guards[0]) if guards else None)
+    ck.floor(R, 3)
